@@ -45,7 +45,7 @@ pub fn part_for(prop: &str) -> E3Part {
             nontrivial: |f| f.contains("two_workers_at_locks"),
             quick_cases: 250,
             thorough_factor: 20,
-            rule: "E3: programs dominated by explicit checkpoints, puts with rollover checkpoints (N in {1,2}), range removals, orphan clean-up, aborts and readers, 2-4 threads, under generated schedules; oracle (1): in every explored schedule every worker finishes — a state in which unfinished workers exist and none can be granted its lock is reported with the schedule as witness (a granted worker that neither yields nor finishes for 20 s, confirmed three times, counts as a stall); oracle (2): the lock-order graph harvested from all runs (edges held->wanted per site) has no self-acquisition, no inversion without a common gate lock and no 3-cycle; non-trivial = >=2 workers simultaneously holding or wanting index locks; distinct by (program, executed schedule)",
+            rule: "E3: programs dominated by explicit checkpoints, puts with rollover checkpoints (N in {1,2}), range removals, orphan clean-up, aborts and readers, 2-4 threads, under generated schedules; oracle (1): in every explored schedule every worker finishes — a state in which unfinished workers exist and none can be granted its lock is reported with the schedule as witness (a granted worker that neither yields nor finishes for 6 s, confirmed three times, counts as a stall); oracle (2): the lock-order graph harvested from all runs (edges held->wanted per site) has no self-acquisition, no inversion without a common gate lock and no 3-cycle; non-trivial = >=2 workers simultaneously holding or wanting index locks; distinct by (program, executed schedule)",
         },
         "C06" => E3Part {
             name: "sched-cashash",
@@ -93,8 +93,17 @@ fn harness_exit(msg: &str) -> ! {
     std::process::exit(2);
 }
 
+/// Set once a stall (a worker blocked inside the store on something the scheduler does not own) has
+/// been confirmed: every further case, in particular every shrink candidate, is skipped — each
+/// stalled run costs three watchdog periods and leaks its blocked threads, so the first confirmed
+/// witness is reported as it is.
+static STALL_SEEN: std::sync::atomic::AtomicBool = std::sync::atomic::AtomicBool::new(false);
+
 pub fn e3_test<'a>(part: &'a E3Part, edges: &'a Mutex<BTreeSet<(u8, u8, &'static str)>>) -> impl Fn(&SchedCase) -> R<CaseMeta> + Sync + 'a {
     move |case: &SchedCase| {
+        if STALL_SEEN.load(std::sync::atomic::Ordering::SeqCst) {
+            return Ok(CaseMeta { evals: 0, discarded: true, ..Default::default() });
+        }
         let mut stall = false;
         let res = execute(case, part.lenses, &mut stall);
         if stall {
@@ -114,7 +123,11 @@ pub fn e3_test<'a>(part: &'a E3Part, edges: &'a Mutex<BTreeSet<(u8, u8, &'static
             }
             if confirmed == 3 {
                 if part.lenses.deadlock {
-                    return Err(Fail::new("deadlock/stall", "a granted worker neither yielded nor finished within 20 s in three consecutive runs of the same schedule"));
+                    if STALL_SEEN.swap(true, std::sync::atomic::Ordering::SeqCst) {
+                        // another shard already reports a stall
+                        return Ok(CaseMeta { evals: 0, discarded: true, ..Default::default() });
+                    }
+                    return Err(Fail::new("deadlock/stall", "a granted worker neither yielded nor finished within the watchdog period in three consecutive runs of the same schedule: it blocks inside the store on a lock that a parked worker holds (lock acquisition not visible to the scheduler)"));
                 }
                 harness_exit("a worker stalled three times in a check that does not decide deadlock-freedom");
             }
